@@ -409,6 +409,8 @@ pub fn ntru_gen(
     // let mut rng: StdRng = SeedableRng::from_seed(seed);
 
     loop {
+        #[cfg(feature = "verif-hooks")]
+        crate::verif_hooks::count_keygen_candidate();
         let f = gen_poly(n, rng);
         let g = gen_poly(n, rng);
 
